@@ -3,6 +3,7 @@ package vh
 import (
 	"bytes"
 	"fmt"
+	"io"
 	"net"
 	"os"
 	"strings"
@@ -121,6 +122,7 @@ func execC08(c c08Case) Outcome {
 	misconfig := isMisconfig(c.Cause)
 
 	var sw, aw *os.File
+	var sat *satWriter // non-nil under saturated load: the only writer of the audit pipe
 	var err error
 	stop := make(chan struct{})
 	var wg sync.WaitGroup
@@ -186,7 +188,8 @@ func execC08(c c08Case) Outcome {
 		}
 		if c.Load == "saturated" {
 			wg.Add(1)
-			go saturate(aw, stop, &wg)
+			sat = &satWriter{inj: make(chan []byte), done: make(chan struct{})}
+			go saturateInj(aw, stop, &wg, sat.inj, sat.done)
 			time.Sleep(300 * time.Millisecond) // let the internal line buffer fill
 		}
 		time.Sleep(time.Duration(c.DelayMs) * time.Millisecond)
@@ -280,21 +283,26 @@ func execC08(c c08Case) Outcome {
 		case "write_error_after_start":
 			// a correlated session is established and its first events are written;
 			// then the output breaks while kernel events of the session are in flight
+			var am io.Writer = aw
+			if sat != nil {
+				// whole lines handed to the saturating writer (see satWriter)
+				am = sat
+			}
 			fmt.Fprintf(sw, "6001 Accepted password for w from 1.2.3.4 port 22 ssh2\n")
-			fmt.Fprintln(aw, audEventForOp(800, hop{K: "open", S: 77, P: 4001}).Lines[0])
+			fmt.Fprintln(am, audEventForOp(800, hop{K: "open", S: 77, P: 4001}).Lines[0])
 			if !waitUntil(20*time.Second, func() bool { return atomic.LoadInt64(&outN) >= int64(4*c.Prefix+2) }) {
 				panic(&infraError{"session not correlated: " + tailStr(d.stderrText(), 400)})
 			}
 			outR.Close()
 			for i := 0; i < 4+c.Prefix; i++ {
 				ae := audEventForOp(901+i, hop{K: "ev", S: 77, T: "SYSCALL", P: 4001})
-				fmt.Fprintln(aw, ae.Lines[0]) // SYSCALL record only: the event stays incomplete
+				fmt.Fprintln(am, ae.Lines[0]) // SYSCALL record only: the event stays incomplete
 			}
 			// a complete event with a LOWER sequence number (out-of-order arrival): it is
 			// delivered at once, its write fails, and the incomplete events above are
 			// still in flight when the audit processor stops
 			for _, l := range audEventForOp(850, hop{K: "ev", S: 77, T: "USER_START", P: 4001}).Lines {
-				fmt.Fprintln(aw, l)
+				fmt.Fprintln(am, l)
 			}
 		case "write_error":
 			fmt.Fprintf(sw, "4242 Accepted password for u from 1.2.3.4 port 22 ssh2\n")
